@@ -254,13 +254,14 @@ func (r *Run) writeEvidence(ok, viol, knownHit int, knownLines []string) {
 	for k, v := range r.Extra {
 		cov[k] = v
 	}
+	assume := append([]string{"go/types and go/ssa (golang.org/x/tools v0.29.0) model the target's source faithfully; only linux/amd64, cgo off, non-test files are analysed"}, r.Assume...)
 	ev := map[string]interface{}{
 		"property_id": r.Prop,
 		"tier":        r.Tier,
 		"seed":        seed,
 		"level":       "other",
 		"coverage":    cov,
-		"assumptions": r.Assume,
+		"assumptions": assume,
 		"wall_s":      time.Since(r.start).Seconds(),
 		"violations":  viol,
 	}
